@@ -23,6 +23,6 @@ def main(chk):
 MANIFEST = {
     'category': 'proof',
     'technique': 'Coq: specification merge from the Decode documentation, three models (reflection, generated fast path, builtin switch), theorems on nil/paths/idempotence with refutations for the two defects found + vm_compute correspondence (first and second decode) + direct merge/idempotence oracle over 5 formats, with and without codec.notfastpath',
-    'text': 'For ALL types of the universe (int, string, pointer, slice, string-keyed map, struct, interface{} holding nil/int64/string), all destinations (no well-typedness assumed), all stream items, all option vectors: C19_merge dec_impl = the documentation-derived merge under two boolean guards (nil_ok: no stream nil aimed at a pointer-typed struct field; paths_guard: not fastpath+SliceElementReset+[]interface{}) with C19_merge_refuted / C19_guards_tight; C19_impl_is_reflection; C19_nil / C19_nil_impl / C19_nil_field(+_refuted, F19-1); C19_keep_struct / C19_keep_struct_array / C19_keep_map (absent = untouched at every struct/map reached); C19_paths (fast path = reflection path of the same build on every covered type, unconditionally), C19_paths_notfastpath (+ C19_paths_refuted, F19-2); C19_idem (second decode of the same item returns the result; side condition: no stream map repeats a key). Proved by induction on the item tree (item_ind\') over first-class container loops (C19/Loops.v). Tied by re-running dec_impl on every observed first and second decode and by a merge oracle over five formats with and without codec.notfastpath.',
+    'text': 'For ALL types of the universe (int, string, pointer, slice, string-keyed map, struct, interface{} holding nil/int64/string), all destinations (no well-typedness assumed), all stream items, all option vectors: C19_merge dec_impl = the documentation-derived merge under two boolean guards (nil_ok: no stream nil aimed at a pointer-typed struct field; paths_guard: not fastpath+SliceElementReset+[]interface{}) with C19_merge_refuted / C19_guards_tight; C19_impl_is_reflection; C19_nil / C19_nil_impl / C19_nil_field(+_refuted, F19-1); C19_keep_struct / C19_keep_struct_array / C19_keep_map (absent = untouched at every struct/map reached); C19_paths (fast path = reflection path of the same build on every covered type, unconditionally), C19_paths_notfastpath (+ C19_paths_refuted, F19-2); C19_idem (second decode of the same item returns the result; side condition: no stream map repeats a key); C19_slice_len (a slice decoded from a stream array has exactly the stream length and element j is stream element j decoded into the previous element j, zero beyond the previous length). Proved by induction on the item tree (item_ind\') over first-class container loops (C19/Loops.v). Tied by re-running dec_impl on every observed first and second decode and by a merge oracle over five formats with and without codec.notfastpath. Deterministic sweeps: nil at every single position of a full stream into zero and fully populated destinations; every alternate wire spelling of a stream nil (cbor undefined 0xf7, json null inside whitespace) must leave the destination exactly as the primary spelling does and goes to the model as the same INil item; stream arrays around and beyond the pre-sizing cap max(1024, MaxInitLen) (1023..5000 elements, MaxInitLen 0/4/1500/4096) into nil, shorter, spare-capacity, equal and longer slices, reflection and fast-path element types, length-prefixed and indefinite-length streams, judged by length, merge and decode-twice.',
     'note': 'Repaired through the check: F19-3. Recorded: F19-1, F19-2. nil_ok is a guard on (type, stream) only, so it also excludes a nil aimed at a pointer field that currently holds nil (harmless case); C19_idem assumes distinct keys per stream map. interface{} holding a struct by value is modelled (merge_x/dec_*_x with dyn = true) and tied by correspondence + oracle, the theorems are for dyn = false. nil/zero-length []byte through []byte and io.Reader sources: direct oracle only (bytes stream). Go arrays (incl. arrays of pointers to scalars): merge and idempotence oracles only, no Coq cases. Outside the universe:  non-string map keys, time, bytes, chan, interface{} holding containers (correspondence not generated for them).',
 }
